@@ -6,9 +6,11 @@
 EXTENDS JqCli
 
 Configs ==
-  {c \in [progVia : {"inline", "file"}, nfiles : 0..2, nsel : 0..2, out : {"none", "dash", "path"},
+  {c \in [progVia : {"inline", "file"}, nfiles : 0..2, same : BOOLEAN, nsel : 0..2, out : {"none", "dash", "path"},
           badProg : BOOLEAN, badAt : 0..2, badKind : {"none", "missing", "unreadable"}] :
      /\ c.badProg => c.progVia = "file"
+     \* one path cannot be usable the first time and unusable the second
+     /\ c.same => (c.nfiles = 2 /\ c.badAt <= 1)
      /\ c.badAt <= c.nfiles
      /\ (c.badAt = 0) <=> (c.badKind = "none")}
 
@@ -18,12 +20,14 @@ Spec == Init /\ [][Next]_cvars
 
 \* the laws are about the function Result only: evaluate them once, in the initial states
 Laws ==
-  pc = "parse" => /\ LawProgVia({cfg}) /\ LawStdin({cfg}) /\ LawOutPath({cfg}) /\ LawErrors({cfg})
+  pc = "parse" => /\ LawProgVia({cfg}) /\ LawStdin({cfg}) /\ LawOutPath({cfg}) /\ LawOutBytes({cfg}) /\ LawErrors({cfg}) /\ LawSamePath({cfg})
 
 \* every command line shape is present
 Complete ==
   pc = "parse" =>
-    /\ Cardinality(Configs) = 243
+    /\ Cardinality(Configs) = 324
+    /\ \A v \in {"inline", "file"}, s \in 0..2, o \in {"none", "dash", "path"} :
+         \E c \in Configs : c.progVia = v /\ c.nfiles = 2 /\ c.same /\ c.nsel = s /\ c.out = o /\ ~c.badProg /\ c.badAt = 0
     /\ \A v \in {"inline", "file"}, n \in 0..2, s \in 0..2, o \in {"none", "dash", "path"} :
          \E c \in Configs : c.progVia = v /\ c.nfiles = n /\ c.nsel = s /\ c.out = o /\ ~c.badProg /\ c.badAt = 0
 
